@@ -9,7 +9,8 @@
 
    Not modelled: I/O errors other than the failure of os.Rename on an occupied target, uint64
    and int64 wrap-around, symbolic links, changes made by other goroutines or processes while
-   clean runs (the second isMarked test of the loop is modelled, the marks do not change),
+   clean runs other than markDir calls between two iterations of the eviction loop (see `run` below;
+   in `clean` itself the marks do not change),
    sort.Slice for more than 12 entries (the theorems hold for any permutation; the executable
    model uses the insertion sort Go uses up to 12 elements). *)
 From PlzV Require Import Base.Harness Gen.CacheNames.
@@ -328,10 +329,97 @@ Definition meets_bound (sorter : list entry -> list entry) (st : state) : Prop :
   let r := clean_with sorter st in
   (st_high st <= size_of st)%N -> (sum_size (r_kept r) < st_low st)%N \/ r_kept r = [].
 
+(* ---- clean interleaved with the process that owns the cache --------------------------------- *)
+
+(* clean runs in its own goroutine (newDirCache: `go cache.clean(high, low)`).  The walk has produced
+   the queue of unmarked entries; while the eviction loop works through it, the process goes on
+   calling Retrieve and Store, each of which starts with markDir.  The loop therefore tests isMarked
+   again for every entry.  Granularity of the model: one iteration of the loop is one step, a
+   markDir call is one step, and they interleave arbitrarily (a list of labels).  What Store does to
+   the file system after its markDir is not modelled, nor a markDir that falls between the isMarked
+   test and the os.Rename of the same iteration. *)
+
+Inductive flow := FNext | FContinue | FBreak.
+
+(* one pass through the body of `for _, entry := range entries`, statement by statement as gotrans
+   lists them in Gen.CacheNames.evict_body; `removed`: the entry has been renamed and removed *)
+Fixpoint exec_body (compress : bool) (mk : marks) (low : N) (e : entry) (body : list evict_step)
+                   (live : list item) (total : N) (removed : bool) : flow * list item * N * bool :=
+  match body with
+  | [] => (FNext, live, total, removed)
+  | EvSkipIfMarked :: b =>
+      match is_marked mk (e_path e) with
+      | Some _ => (FContinue, live, total, removed)
+      | None => exec_body compress mk low e b live total removed
+      end
+  | EvEvictOrSkip :: b =>
+      let p' := append_last (e_path e) (s rename_suffix) in
+      if rename_blocked compress live p' then (FContinue, live, total, removed)
+      else exec_body compress mk low e b (delete live (e_path e) p') total true
+  | EvSubtractSize :: b => exec_body compress mk low e b live (total - e_size e)%N removed
+  | EvBreakBelowLow :: b =>
+      if N.ltb total low then (FBreak, live, total, removed)
+      else exec_body compress mk low e b live total removed
+  end.
+
+Inductive label :=
+| LMark (p : path) (size : N)   (* the process calls markDir(p, size): Retrieve, Store *)
+| LIter.                        (* clean runs the loop body for the next queued entry *)
+
+Record cstate := mkC {
+  cs_calls : list (path * N);   (* markDir calls so far, oldest first *)
+  cs_queue : list entry;        (* entries the loop has not reached yet *)
+  cs_live : list item;          (* what is in the cache directory *)
+  cs_total : N;                 (* totalSize *)
+  cs_removed : list entry;      (* entries renamed and removed, newest first *)
+  cs_kept : list entry          (* entries skipped or not reached, newest first *)
+}.
+
+Definition do_label (compress : bool) (low : N) (x : cstate) (lb : label) : cstate :=
+  match lb with
+  | LMark p sz => mkC (cs_calls x ++ [(p, sz)]) (cs_queue x) (cs_live x) (cs_total x) (cs_removed x) (cs_kept x)
+  | LIter =>
+      match cs_queue x with
+      | [] => x
+      | e :: r =>
+          let '(fl, live', total', rem) :=
+            exec_body compress (marks_of (cs_calls x)) low e evict_body (cs_live x) (cs_total x) false in
+          let kept' := if rem then cs_kept x else e :: cs_kept x in
+          mkC (cs_calls x) (match fl with FBreak => [] | _ => r end) live' total'
+              (if rem then e :: cs_removed x else cs_removed x)
+              (match fl with FBreak => rev r ++ kept' | _ => kept' end)
+      end
+  end.
+
+Definition run (compress : bool) (low : N) : cstate -> list label -> cstate := fold_left (do_label compress low).
+
+(* the state after the walk, the test against the high water mark and the sort *)
+Definition start (sorter : list entry -> list entry) (st : state) : cstate :=
+  if N.ltb (size_of st) (st_high st)
+  then mkC (st_calls st) [] (st_items st) (size_of st) [] (rev (entries_of st))
+  else mkC (st_calls st) (sorter (entries_of st)) (st_items st) (size_of st) [] [].
+
+(* the markDir calls among the labels *)
+Definition label_calls (ls : list label) : list (path * N) :=
+  flat_map (fun lb => match lb with LMark p sz => [(p, sz)] | LIter => [] end) ls.
+
+Definition with_calls (st : state) (calls : list (path * N)) : state :=
+  mkState (st_compress st) (st_items st) calls (st_high st) (st_low st).
+
+(* lazy bounded search (vm_compute is strict: no existsb here): f j for some j in [k, k+n) *)
+Fixpoint some_from (f : nat -> bool) (k n : nat) : bool :=
+  match n with
+  | O => false
+  | S n' => if f k then true else some_from f (S k) n'
+  end.
+
 (* ---- correspondence cases ---------------------------------------------------------------- *)
 Inductive case :=
 | CName (compress : bool) (name : str) (isdir : bool) (observed : bool)
-| CClean (st : state) (observed_total : N) (observed_listing : list path).
+| CClean (st : state) (observed_total : N) (observed_listing : list path)
+(* clean ran concurrently with one markDir(p, size) of the process; the harness saw that between klo and
+   khi iterations of the loop had started when the mark was set *)
+| CRace (st : state) (klo khi : nat) (p : path) (size : N) (observed_total : N) (observed_listing : list path).
 
 Definition check (c : case) : bool :=
   match c with
@@ -339,4 +427,11 @@ Definition check (c : case) : bool :=
   | CClean st tot listing =>
       let r := clean st in
       N.eqb (r_total r) tot && list_eqb path_eqb (map i_path (r_live r)) listing
+  | CRace st klo khi p sz tot listing =>
+      let x0 := start isort st in
+      let n := length (cs_queue x0) in
+      some_from (fun k =>
+                   let x := run (st_compress st) (st_low st) x0 (repeat LIter k ++ LMark p sz :: repeat LIter n) in
+                   N.eqb (cs_total x) tot && list_eqb path_eqb (map i_path (cs_live x)) listing)
+                klo (S khi - klo)
   end.
